@@ -2,6 +2,7 @@ package calcium
 
 import (
 	"context"
+	"sort"
 	"sync"
 
 	enginefactory "github.com/projecteru2/core/engine/factory"
@@ -291,10 +292,17 @@ func (c *Calcium) filterNodes(ctx context.Context, nodeFilter *types.NodeFilter)
 		if len(ns) == 0 {
 			return
 		}
-		// sorted by nodenames
-		nodenames := utils.Map(ns, func(node *types.Node) string { return node.Name })
+		// sorted by nodenames (the nodes themselves, not a copy of their names)
+		sort.Slice(ns, func(i, j int) bool { return ns[i].Name < ns[j].Name })
 		// unique
-		p := utils.Unique(nodenames, func(i int) string { return nodenames[i] })
+		p := 0
+		for i, n := range ns {
+			if i != 0 && n.Name == ns[p-1].Name {
+				continue
+			}
+			ns[p] = n
+			p++
+		}
 		ns = ns[:p]
 	}()
 
